@@ -428,7 +428,12 @@ func (w *Writer) AddScene(scene PolyformScene) error {
 		}
 
 		if len(model.Animations) > 0 {
-			w.AddAnimations(model.Animations, *model.Skeleton, skinNode)
+			if model.Skeleton == nil {
+				return fmt.Errorf("%w: model %q has animations but no skeleton", ErrInvalidInput, model.Name)
+			}
+			if err := w.AddAnimations(model.Animations, *model.Skeleton, skinNode); err != nil {
+				return fmt.Errorf("failed to add animations of model %q: %w", model.Name, err)
+			}
 		}
 	}
 
@@ -734,8 +739,28 @@ func (w *Writer) AddSkin(skeleton animation.Skeleton) (*int, int) {
 	return ptrI(len(w.skins) - 1), w.scene[len(w.scene)-1]
 }
 
-func (w *Writer) AddAnimations(animations []animation.Sequence, skeleton animation.Skeleton, skeletonNode int) {
-	for _, animation := range animations {
+// lookupJoint is Skeleton.Lookup with the panic for an unknown path turned into an error
+func lookupJoint(skeleton animation.Skeleton, path string) (index int, err error) {
+	defer func() {
+		if r := recover(); r != nil {
+			err = fmt.Errorf("%w: %v", ErrInvalidInput, r)
+		}
+	}()
+	return skeleton.Lookup(path), nil
+}
+
+func (w *Writer) AddAnimations(animations []animation.Sequence, skeleton animation.Skeleton, skeletonNode int) error {
+	// nothing is written before every sequence is known to be writable
+	joints := make([]int, len(animations))
+	for i, animation := range animations {
+		joint, err := lookupJoint(skeleton, animation.Joint())
+		if err != nil {
+			return err
+		}
+		joints[i] = joint
+	}
+
+	for i, animation := range animations {
 
 		min := vector3.New(math.MaxFloat64, math.MaxFloat64, math.MaxFloat64)
 		max := vector3.New(-math.MaxFloat64, -math.MaxFloat64, -math.MaxFloat64)
@@ -818,13 +843,14 @@ func (w *Writer) AddAnimations(animations []animation.Sequence, skeleton animati
 				{
 					Target: AnimationChannelTarget{
 						Path: AnimationChannelTargetPath_TRANSLATION,
-						Node: skeleton.Lookup(animation.Joint()) + skeletonNode,
+						Node: joints[i] + skeletonNode,
 					},
 					Sampler: 0, // the one sampler of THIS animation
 				},
 			},
 		})
 	}
+	return nil
 }
 
 func (w *Writer) AddLight(light KHR_LightsPunctual) {
